@@ -352,8 +352,21 @@ func runScript(line string, cfg config, abort <-chan struct{}) string {
 	opts := mpx.Default()
 	opts.ChannelWindowSize = units.Bytes(w)
 
-	// Server
-	srv := mpx.NewServer("localhost:0", mpx.HandleFunc(sc.handle), lg, opts)
+	// Server. The window of a channel is the one its opener announces in the open frame; the server's
+	// own setting must not matter for incoming channels, so it is made different from the client's in
+	// three scripts of four.
+	sopts := mpx.Default()
+	switch len(line) % 4 {
+	case 0:
+		sopts.ChannelWindowSize = units.Bytes(w)
+	case 1:
+		sopts.ChannelWindowSize = units.Bytes(16*w + 7)
+	case 2:
+		sopts.ChannelWindowSize = units.Bytes(max(1, w/3))
+	default:
+		sopts.ChannelWindowSize = units.Bytes(1 << 24)
+	}
+	srv := mpx.NewServer("localhost:0", mpx.HandleFunc(sc.handle), lg, sopts)
 	if st := srv.Start(); !st.OK() {
 		return "ERROR server start: " + st.String()
 	}
